@@ -8,6 +8,7 @@
 #include <memory>
 #include <sstream>
 #include <algorithm>
+#include <map>
 #include <bloom_filter.hpp>
 #include "vtrace.hpp"
 #include "refhash.hpp"
@@ -16,6 +17,11 @@ using namespace datasketches;
 using vt::Ev;
 
 static const int NF = 4, NM = 2;
+// every event passes through out(): g_tail carries the expected values of a replayed model step (xo, xa, xn, xst)
+// and the count word stored at byte 24 of the region the event concerns ("st": -1 = DIRTY marker; tier B observation)
+static std::string g_tail;
+static int g_region = 0;
+static void out(Ev& e);
 static const size_t REGION_BYTES = 1024;       // >= 32 + 2048 / 8
 
 struct Cfg { uint64_t cap; uint16_t hashes; uint64_t seed; };
@@ -143,8 +149,21 @@ struct World {
   Cfg base, alt;
   long universe;
   std::vector<Item> recent;
+  bool force = false;      // replay mode: constructors use exactly the base configuration, by size
 };
 
+static World* g_w = nullptr;
+static void out(Ev& e) {
+  if (g_region != 0 && g_w != nullptr && g_w->m[g_region].live) {
+    const uint8_t* p = g_w->m[g_region].buf.data();
+    if ((p[3] & 4) == 0) {       // the image has a count word
+      uint64_t v; memcpy(&v, p + 24, 8);
+      e.i("st", v == ~0ULL ? -1 : v < (1ULL << 30) ? (long long)v : -2);
+    }
+  }
+  g_region = 0;
+  e.s += g_tail; g_tail.clear(); e.emit();
+}
 static void stale_siblings(World& w, int f) {
   if (w.s[f].at == 0) return;
   for (int h = 1; h <= NF; h++) if (h != f && w.s[h].f && w.s[h].at == w.s[f].at) w.s[h].fresh = false;
@@ -152,13 +171,14 @@ static void stale_siblings(World& w, int f) {
 static void drop(World& w, int f) {
   if (!w.s[f].f) return;
   w.s[f].f.reset();
-  Ev("Drop").i("f", f).emit();
+  { Ev e_("Drop"); e_.i("f", f); out(e_); }
 }
 static void drop_views(World& w, int m) {
   for (int h = 1; h <= NF; h++) if (w.s[h].f && w.s[h].at == m) drop(w, h);
 }
 static Ev& common(Ev& e, World& w, int f) {
   e.i("f", f).i("at", w.s[f].at);
+  g_region = w.s[f].at;
   if (w.s[f].restored) e.b("restored", true);
   return e;
 }
@@ -188,9 +208,51 @@ static void fpp_events(vt::Rng& g, long count) {
     long fn = 0, fp = 0;
     for (int i = 0; i < n; i++) if (!put(base + (uint64_t)i, QRY)) fn++;
     for (int i = 0; i < M; i++) if (put(base + (uint64_t)n + 1000 + (uint64_t)i, QRY)) fp++;
-    Ev("Fpp").i("n", n).i("M", M).i("pPm", pPm).i("F", fp).i("FN", fn).i("cap", (long long)f->get_capacity())
-      .i("hashes", f->get_num_hashes()).b("inmem", inmem).str("type", strs ? "str" : "u64").emit();
+    { Ev e_("Fpp"); e_.i("n", n).i("M", M).i("pPm", pPm).i("F", fp).i("FN", fn).i("cap", (long long)f->get_capacity())
+      .i("hashes", f->get_num_hashes()).b("inmem", inmem).str("type", strs ? "str" : "u64"); out(e_); }
   }
+}
+
+// ---- replay of TLC-generated behaviours (spec -> impl, spec/GenBloom.tla) --------------------------------------------
+struct GStep { std::string op, o; long f, g, x, n, st; bool a; };
+// one line = one behaviour = JSON array of flat objects with string / integer / boolean values
+static std::vector<GStep> parse_behaviour(const std::string& ln) {
+  std::vector<GStep> r; size_t i = 0;
+  while ((i = ln.find('{', i)) != std::string::npos) {
+    const size_t e = ln.find('}', i); GStep st{}; st.f = st.g = st.x = st.n = 0; st.st = -3; st.a = false;
+    size_t p = i + 1;
+    while (p < e) {
+      const size_t k0 = ln.find('"', p); if (k0 == std::string::npos || k0 > e) break;
+      const size_t k1 = ln.find('"', k0 + 1); const std::string key = ln.substr(k0 + 1, k1 - k0 - 1);
+      size_t v = k1 + 2; std::string sv; long iv = 0; bool bv = false;
+      if (ln[v] == '"') { const size_t v1 = ln.find('"', v + 1); sv = ln.substr(v + 1, v1 - v - 1); p = v1 + 1; }
+      else { size_t v1 = v; while (v1 < e && ln[v1] != ',') v1++; const std::string t = ln.substr(v, v1 - v); bv = t == "true"; iv = (t == "true" || t == "false") ? 0 : atol(t.c_str()); p = v1; }
+      if (key == "op") st.op = sv; else if (key == "o") st.o = sv; else if (key == "f") st.f = iv; else if (key == "g") st.g = iv;
+      else if (key == "x") st.x = iv; else if (key == "n") st.n = iv; else if (key == "st") st.st = iv; else if (key == "a") st.a = bv;
+    }
+    r.push_back(st); i = e + 1;
+  }
+  return r;
+}
+// three items whose REFERENCE index pairs overlap like the model's {0,1}, {1,2}, {2,3}: a = {p,q}, b = {q,r}, c = {r,s}
+static std::vector<Item> mine_items(const Cfg& c, uint64_t variant) {
+  vt::Rng g(c.cap * 7919 + variant);
+  std::vector<Item> pool; std::vector<std::vector<long long>> idx;
+  while (pool.size() < 4000) { Item it = draw(g, 100000); std::string b; if (!canon(it, b)) continue; auto ix = ref_idx(b, c); if (ix[0] == ix[1]) continue; pool.push_back(it); idx.push_back(ix); }
+  auto has = [](const std::vector<long long>& v, long long x) { return v[0] == x || v[1] == x; };
+  for (size_t a = 0; a < pool.size(); a++)
+    for (size_t b = 0; b < pool.size(); b++) {
+      if (b == a) continue;
+      const int sh = (int)has(idx[a], idx[b][0]) + (int)has(idx[a], idx[b][1]); if (sh != 1) continue;
+      const long long q = has(idx[a], idx[b][0]) ? idx[b][0] : idx[b][1], r = idx[b][0] == q ? idx[b][1] : idx[b][0];
+      for (size_t cc = 0; cc < pool.size(); cc++) {
+        if (cc == a || cc == b || !has(idx[cc], r)) continue;
+        const long long s2 = idx[cc][0] == r ? idx[cc][1] : idx[cc][0];
+        if (has(idx[a], s2) || has(idx[b], s2)) continue;
+        return {pool[a], pool[b], pool[cc]};
+      }
+    }
+  fprintf(stderr, "bloom_rec: no item triple for capacity %llu\n", (unsigned long long)c.cap); exit(3);
 }
 
 int main(int argc, char** argv) {
@@ -203,16 +265,37 @@ int main(int argc, char** argv) {
   const int serde_pct = (int)vt::argl(argc, argv, "--serde", 12);
   const long fpp = vt::argl(argc, argv, "--fpp", 4);
   const int scenario_pct = (int)vt::argl(argc, argv, "--scenario", 2);   // % of steps that run the scripted multi-view interleaving
+  // replay mode: --replay <prefix> --nfiles N [--part k --parts P] [--stride S --offset O]
+  const char* replay = vt::arg(argc, argv, "--replay", nullptr);
+  std::vector<std::vector<GStep>> behs; std::vector<long> behidx;
+  if (replay) {
+    const long nfiles = vt::argl(argc, argv, "--nfiles", 1), part = vt::argl(argc, argv, "--part", 0), parts = vt::argl(argc, argv, "--parts", 1);
+    const long stride = vt::argl(argc, argv, "--stride", 1), offset = vt::argl(argc, argv, "--offset", 0);
+    long idx = 0, taken = 0; char* line = nullptr; size_t cap = 0;
+    for (long fi = 0; fi < nfiles; fi++) {
+      const std::string path = std::string(replay) + "." + std::to_string(fi);
+      FILE* in = fopen(path.c_str(), "r"); if (!in) { perror(path.c_str()); return 3; }
+      ssize_t len;
+      while ((len = getline(&line, &cap, in)) > 0) {
+        if (idx % stride == offset % stride) { if (taken % parts == part) { behs.push_back(parse_behaviour(std::string(line, (size_t)len))); behidx.push_back(idx); } taken++; }
+        idx++;
+      }
+      fclose(in);
+    }
+    free(line);
+  }
+  std::map<uint64_t, std::vector<Item>> mined;
   vt::open_out(vt::arg(argc, argv, "--out", "/dev/stdout"));
   vt::Rng g(seed);
   static const long SIZES[] = {1, 63, 64, 65, 100, 127, 128, 129, 200, 320, 500, 777, 1000, 1024, 1500, 2000, 2048};
   static const unsigned HS[] = {0, 0, 1, 7, 8, 13, 64};
 
-  if (fpp > 0) { Ev("Begin").i("seg", -1).emit(); fpp_events(g, fpp); }
+  if (fpp > 0 && !replay) { { Ev e_("Begin"); e_.i("seg", -1); out(e_); } fpp_events(g, fpp); }
 
-  for (long seg = 0; seg < segments; seg++) {
-    Ev("Begin").i("seg", seg).emit();
-    World w;
+  const long nseg = replay ? (long)behs.size() : segments;
+  for (long seg = 0; seg < nseg; seg++) {
+    { Ev e_("Begin"); e_.i("seg", seg); out(e_); }
+    World w; g_w = &w;
     for (int i = 0; i <= NF; i++) { w.s[i].at = 0; w.s[i].fresh = true; w.s[i].restored = false; }
     for (int i = 0; i <= NM; i++) { w.m[i].buf.assign(REGION_BYTES, 0xA5); w.m[i].live = false; w.m[i].len = 0; w.m[i].from_ser = false; }
     long req;
@@ -225,8 +308,8 @@ int main(int argc, char** argv) {
 
     // ---- constructors -----------------------------------------------------------------------------------
     auto make_new = [&](int f) {
-      const Cfg& q = g.chance(85) ? w.base : w.alt;
-      const bool acc = g.chance(15);
+      const Cfg& q = (w.force || g.chance(85)) ? w.base : w.alt;
+      const bool acc = !w.force && g.chance(15);
       long n = 0, pPm = 0;
       if (acc) { n = g.range(3, 120); static const int P[] = {500, 250, 100, 50, 10}; pPm = P[g.below(5)];
                  w.s[f].f.reset(new bloom_filter(bloom_filter::builder::create_by_accuracy((uint64_t)n, pPm / 1000.0, q.seed))); }
@@ -234,28 +317,29 @@ int main(int argc, char** argv) {
       bloom_filter& x = *w.s[f].f;
       w.s[f].c = Cfg{x.get_capacity(), x.get_num_hashes(), x.get_seed()};
       w.s[f].at = 0; w.s[f].fresh = true; w.s[f].restored = false;
-      Ev("New").i("f", f).str("how", acc ? "accuracy" : "size").i("req", acc ? 0 : (long long)q.cap).i("reqHashes", acc ? 0 : q.hashes)
-        .h("reqSeedH", q.seed).i("n", n).i("pPm", pPm).raw("r", proj(x)).emit();
+      { Ev e_("New"); e_.i("f", f).str("how", acc ? "accuracy" : "size").i("req", acc ? 0 : (long long)q.cap).i("reqHashes", acc ? 0 : q.hashes)
+        .h("reqSeedH", q.seed).i("n", n).i("pPm", pPm).raw("r", proj(x)); out(e_); }
     };
     auto make_initmem = [&](int f, int m) {
       drop(w, f);
       drop_views(w, m);
-      const Cfg& q = g.chance(85) ? w.base : w.alt;
-      const bool acc = g.chance(15);
+      const Cfg& q = (w.force || g.chance(85)) ? w.base : w.alt;
+      const bool acc = !w.force && g.chance(15);
       long n = 0, pPm = 0;
       std::fill(w.m[m].buf.begin(), w.m[m].buf.end(), (uint8_t)0xA5);
       size_t give = REGION_BYTES;
       if (acc) { n = g.range(3, 120); static const int P[] = {500, 250, 100, 50, 10}; pPm = P[g.below(5)];
                  w.s[f].f.reset(new bloom_filter(bloom_filter::builder::initialize_by_accuracy(w.m[m].buf.data(), give, (uint64_t)n, pPm / 1000.0, q.seed))); }
-      else { if (g.chance(50)) give = bloom_filter::get_serialized_size_bytes(q.cap);
+      else { if (w.force || g.chance(50)) give = bloom_filter::get_serialized_size_bytes(q.cap);
              w.s[f].f.reset(new bloom_filter(bloom_filter::builder::initialize_by_size(w.m[m].buf.data(), give, q.cap, q.hashes, q.seed))); }
       bloom_filter& x = *w.s[f].f;
       w.s[f].c = Cfg{x.get_capacity(), x.get_num_hashes(), x.get_seed()};
       w.s[f].at = m; w.s[f].fresh = true; w.s[f].restored = false;
       w.m[m].live = true; w.m[m].len = 32 + (size_t)(x.get_capacity() / 8); w.m[m].from_ser = false;
-      Ev("InitMem").i("f", f).i("m", m).str("how", acc ? "accuracy" : "size").i("req", acc ? 0 : (long long)q.cap).i("reqHashes", acc ? 0 : q.hashes)
+      g_region = m;
+      { Ev e_("InitMem"); e_.i("f", f).i("m", m).str("how", acc ? "accuracy" : "size").i("req", acc ? 0 : (long long)q.cap).i("reqHashes", acc ? 0 : q.hashes)
         .h("reqSeedH", q.seed).i("n", n).i("pPm", pPm).i("need", (long long)bloom_filter::get_serialized_size_bytes(x.get_capacity()))
-        .i("give", (long long)give).raw("r", proj(x)).il("membits", membits(w, m)).emit();
+        .i("give", (long long)give).raw("r", proj(x)).il("membits", membits(w, m)); out(e_); }
     };
     auto do_deser = [&](int m, int f) {
       Region& R = w.m[m];
@@ -275,8 +359,9 @@ int main(int argc, char** argv) {
       w.s[f].c = Cfg{x.get_capacity(), x.get_num_hashes(), x.get_seed()};
       w.s[f].at = 0; w.s[f].fresh = true; w.s[f].restored = true;
       auto re = x.serialize();
-      Ev("Deser").i("m", m).i("f", f).str("path", stream ? "stream" : "bytes").i("consumed", consumed).i("size", (long long)im.len)
-        .bytes("reimg", re.data(), re.size()).bytes("img", R.buf.data(), im.len).b("restored", true).raw("r", proj(x)).emit();
+      g_region = m;
+      { Ev e_("Deser"); e_.i("m", m).i("f", f).str("path", stream ? "stream" : "bytes").i("consumed", consumed).i("size", (long long)im.len)
+        .bytes("reimg", re.data(), re.size()).bytes("img", R.buf.data(), im.len).b("restored", true).raw("r", proj(x)); out(e_); }
     };
     auto do_wrap = [&](int m, int f, bool writable) {
       Region& R = w.m[m];
@@ -287,6 +372,7 @@ int main(int argc, char** argv) {
         if (writable) w.s[f].f.reset(new bloom_filter(bloom_filter::writable_wrap(R.buf.data(), im.len)));
         else w.s[f].f.reset(new bloom_filter(bloom_filter::wrap(R.buf.data(), im.len)));
       } catch (const std::exception&) { thrown = true; }
+      g_region = m;
       Ev e(writable ? "WWrap" : "Wrap");
       e.i("m", m).i("f", f).str("out", thrown ? "throw" : "ok").b("restored", R.from_ser);
       if (!thrown) {
@@ -296,7 +382,7 @@ int main(int argc, char** argv) {
         w.s[f].fresh = true; w.s[f].restored = R.from_ser;
         e.raw("r", proj(x)).il("membits", im.bits);
       }
-      e.emit();
+      out(e);
     };
     auto pick_live_region = [&]() -> int { int m = (int)g.range(1, NM); if (w.m[m].live) return m; m = m % NM + 1; return w.m[m].live ? m : 0; };
     auto create = [&](int f) {
@@ -320,14 +406,14 @@ int main(int argc, char** argv) {
       try { ans = call(x, o, it); } catch (const std::exception&) { thrown = true; }
       if (!real) {
         Ev e("NullItem"); common(e, w, f).str("op", o == UPD ? "update" : o == QAU ? "qau" : "query").str("type", TYPES[it.type])
-          .str("out", thrown ? "throw" : "ok").b("ans", ans).b("empty", x.is_empty()).emit();
+          .str("out", thrown ? "throw" : "ok").b("ans", ans).b("empty", x.is_empty()); out(e);
         return;
       }
       Ev e(o == UPD ? "Update" : o == QAU ? "QueryUpdate" : "Query");
       common(e, w, f).str("type", TYPES[it.type]).il("idx", ref_idx(bytes, S.c)).str("out", thrown ? "throw" : "ok");
       if (o != UPD) e.b("ans", ans);
       if (!S.fresh) e.b("stale", true);
-      e.b("empty", x.is_empty()).emit();
+      e.b("empty", x.is_empty()); out(e);
       if (o != QRY && !thrown) stale_siblings(w, f);
     };
     auto draw_item = [&](Op o) -> Item {
@@ -336,29 +422,51 @@ int main(int argc, char** argv) {
       return again ? w.recent[g.below(w.recent.size())] : draw(g, w.universe);
     };
     auto real_item = [&]() -> Item { Item it; std::string b; do { it = draw(g, w.universe); } while (!canon(it, b)); return it; };
+    // query() of several items through a fresh view, logged as ONE event (replay epilogue; query has no side effect)
+    auto ev_sweep = [&](int f, const std::vector<Item>& items) {
+      Slot& S = w.s[f]; bloom_filter& x = *S.f;
+      std::string idx = "[", ans = "[";
+      for (size_t k = 0; k < items.size(); k++) {
+        std::string bytes; canon(items[k], bytes);
+        Ev t("x"); t.s.clear(); t.il("i", ref_idx(bytes, S.c));
+        idx += (k ? "," : "") + t.s.substr(t.s.find('['));
+        ans += std::string(k ? "," : "") + (call(x, QRY, items[k]) ? "true" : "false");
+      }
+      Ev e("Sweep"); common(e, w, f).raw("idx", idx + "]").raw("ans", ans + "]").b("empty", x.is_empty()); out(e);
+    };
     auto ev_bits_used = [&](int f) {
       bloom_filter& x = *w.s[f].f;
       const uint64_t nb = x.get_bits_used();
-      Ev e("BitsUsed"); common(e, w, f).i("n", nb < (1ULL << 30) ? (long long)nb : -1).b("empty", x.is_empty()).emit();
+      Ev e("BitsUsed"); common(e, w, f).i("n", nb < (1ULL << 30) ? (long long)nb : -1).b("empty", x.is_empty()); out(e);
     };
     auto ev_obs = [&](int f) {
       Ev e("Obs"); common(e, w, f).raw("r", proj(*w.s[f].f));
       if (w.s[f].at != 0) e.il("membits", membits(w, w.s[f].at));
-      e.emit();
+      out(e);
     };
     auto ev_setop = [&](int f, int gi, bool uni) {
       bloom_filter& x = *w.s[f].f;
       bool thrown = false;
       try { if (uni) x.union_with(*w.s[gi].f); else x.intersect(*w.s[gi].f); } catch (const std::exception&) { thrown = true; }
       Ev e(uni ? "Union" : "Intersect"); common(e, w, f).i("g", gi).str("out", thrown ? "throw" : "ok")
-        .b("compatible", x.is_compatible(*w.s[gi].f)).b("empty", x.is_empty()).emit();
+        .b("compatible", x.is_compatible(*w.s[gi].f)).b("empty", x.is_empty()); out(e);
       if (!thrown) stale_siblings(w, f);
+    };
+    auto ev_copy = [&](int f, int t, bool mv, bool assign) {
+      Slot& S = w.s[f]; bloom_filter& x = *S.f;
+      if (mv) { if (assign) *w.s[t].f = std::move(x); else w.s[t].f.reset(new bloom_filter(std::move(x))); }
+      else { if (assign) *w.s[t].f = x; else w.s[t].f.reset(new bloom_filter(x)); }
+      w.s[t].c = S.c; w.s[t].at = S.at; w.s[t].fresh = true; w.s[t].restored = S.restored;
+      Ev e(mv ? "Move" : "Copy"); e.i("f", f).i("g", t).i("at", S.at).b("assign", assign);
+      if (S.restored) e.b("restored", true);
+      e.raw("r", proj(*w.s[t].f)); g_region = S.at; out(e);
+      if (mv) S.f.reset();
     };
     auto ev_invreset = [&](int f, bool inv) {
       bloom_filter& x = *w.s[f].f;
       bool thrown = false;
       try { if (inv) x.invert(); else x.reset(); } catch (const std::exception&) { thrown = true; }
-      Ev e(inv ? "Invert" : "Reset"); common(e, w, f).str("out", thrown ? "throw" : "ok").b("empty", x.is_empty()).emit();
+      Ev e(inv ? "Invert" : "Reset"); common(e, w, f).str("out", thrown ? "throw" : "ok").b("empty", x.is_empty()); out(e);
       if (!thrown) stale_siblings(w, f);
     };
     // scripted interleaving over one region (all steps are ordinary logged events):
@@ -397,6 +505,43 @@ int main(int argc, char** argv) {
       }
     };
 
+    if (replay) {
+      // one behaviour = one segment: slot 1 = initialize_by_size(region 1), the model's steps with their expected results
+      // attached (xo, xa, xn, xst), then the epilogue: every fresh view is asked for all three items, and a view created
+      // AFTER everything (wrap / writable_wrap / deserialize in turn, spare slot 4) is asked too and counts the bits
+      static const uint64_t CAPS[] = {64, 128, 192};
+      const long bi = behidx[(size_t)seg];
+      w.force = true;
+      w.base = Cfg{CAPS[bi % 3], 2, 0x5eedULL + (uint64_t)(bi % 5)}; w.alt = w.base;
+      const uint64_t key = w.base.cap * 16 + (uint64_t)(bi % 5);
+      if (!mined.count(key)) mined[key] = mine_items(w.base, (uint64_t)(bi % 5));
+      const std::vector<Item>& it3 = mined[key];
+      make_initmem(1, 1);
+      for (const GStep& st : behs[(size_t)seg]) {
+        g_tail = ",\"xo\":\"" + st.o + "\",\"xa\":" + (st.a ? "true" : "false") + ",\"xn\":" + std::to_string(st.n) + ",\"xst\":" + std::to_string(st.st);
+        const int f = (int)st.f, h = (int)st.g;
+        if (st.op == "Wrap") do_wrap(1, f, false);
+        else if (st.op == "WWrap") do_wrap(1, f, true);
+        else if (st.op == "Deser") do_deser(1, f);
+        else if (st.op == "Copy") ev_copy(f, h, false, false);
+        else if (st.op == "Update") ev_item(f, UPD, it3[(size_t)st.x - 1]);
+        else if (st.op == "QueryUpdate") ev_item(f, QAU, it3[(size_t)st.x - 1]);
+        else if (st.op == "BitsUsed") ev_bits_used(f);
+        else if (st.op == "Reset") ev_invreset(f, false);
+        else if (st.op == "Invert") ev_invreset(f, true);
+        else if (st.op == "Union") ev_setop(f, h, true);
+        else if (st.op == "Intersect") ev_setop(f, h, false);
+        else if (st.op == "Drop") drop(w, f);
+        else { fprintf(stderr, "bloom_rec: unknown step %s\n", st.op.c_str()); return 3; }
+        g_tail.clear();
+      }
+      for (int f = 1; f <= 3; f++) if (w.s[f].f && w.s[f].fresh) ev_sweep(f, it3);
+      if (bi % 3 == 0) do_deser(1, 4); else do_wrap(1, 4, bi % 3 == 1);      // these events carry the view's full projection
+      ev_sweep(4, it3);
+      ev_bits_used(4);
+      for (int f = 1; f <= NF; f++) w.s[f].f.reset();
+      continue;
+    }
     make_new(1);
     if (g.chance(70)) make_initmem(2, 1);
 
@@ -435,7 +580,7 @@ int main(int argc, char** argv) {
             .i("advertised", (long long)adv).b("hdrZero", hdr_zero).bytes("img", R.buf.data(), size).bytes("simg", st.data(), st.size())
             .b("imgOk", im.ok && im.ser == 1 && im.fam == 21 && im.pre == (im.empty ? 3u : 4u) && im.len == size)
             .b("imgEmpty", im.empty).i("imgCap", (long long)im.longs * 64).i("imgHashes", im.hashes).h("imgSeedH", im.seed).il("bits", im.bits)
-            .b("empty", x.is_empty()).emit();
+            .b("empty", x.is_empty()); g_region = m; out(e);
         } else {
           const int m = pick_live_region(); if (m == 0) continue;
           int t = (int)g.range(1, NF);       // target slot (may be occupied: replaced)
@@ -460,15 +605,7 @@ int main(int argc, char** argv) {
         ev_invreset(f, op < 89 || (op == 89 && g.chance(50)));
       } else if (op < 96) {
         int t = (int)g.range(1, NF); if (t == f) continue;
-        const bool mv = op >= 94;
-        const bool assign = w.s[t].f && g.chance(50);
-        if (mv) { if (assign) *w.s[t].f = std::move(x); else w.s[t].f.reset(new bloom_filter(std::move(x))); }
-        else { if (assign) *w.s[t].f = x; else w.s[t].f.reset(new bloom_filter(x)); }
-        w.s[t].c = S.c; w.s[t].at = S.at; w.s[t].fresh = true; w.s[t].restored = S.restored;
-        Ev e(mv ? "Move" : "Copy"); e.i("f", f).i("g", t).i("at", S.at).b("assign", assign);
-        if (S.restored) e.b("restored", true);
-        e.raw("r", proj(*w.s[t].f)).emit();
-        if (mv) S.f.reset();
+        ev_copy(f, t, op >= 94, w.s[t].f && g.chance(50));
       } else if (op < 98) {
         drop(w, f);
       } else {
@@ -478,7 +615,7 @@ int main(int argc, char** argv) {
     for (int f = 1; f <= NF; f++) if (w.s[f].f && w.s[f].fresh) {
       Ev e("Obs"); common(e, w, f).raw("r", proj(*w.s[f].f));
       if (w.s[f].at != 0) e.il("membits", membits(w, w.s[f].at));
-      e.emit();
+      out(e);
     }
     for (int f = 1; f <= NF; f++) w.s[f].f.reset();
   }
